@@ -65,6 +65,8 @@ func contentOf(class string, rng *rand.Rand) string {
 		return "@accrue monthly 2020-06-01 2020-01-01 Assets:Portfolio\n2020-02-10 \"inverted accrual window\"\nAssets:Bank Expenses:Food 120 CHF\n"
 	case "accrualUnopened": // the postings generated for the accrual periods hit an account that was never opened
 		return "@accrue monthly 2020-01-01 2020-03-31 Assets:NeverOpened\n2020-02-10 \"accrual through an unopened account\"\nAssets:Bank Expenses:Food 120 CHF\n"
+	case "zeroPrice": // rejected by valuation only; every command must still terminate cleanly on it
+		return "2020-02-10 price XAU 0 CHF\n2020-02-11 price USD 0.0 CHF\n"
 	case "year1":
 		return "0001-01-01 \"dawn of time\"\nEquity:Equity Assets:Bank 1 CHF\n"
 	case "binary":
